@@ -67,6 +67,7 @@ pub mod ops {
     pub const UNLEASH: u32 = 1 << 13;
     pub const POLL_HOOK: u32 = 1 << 14;
     pub const EXTEND: u32 = 1 << 15;
+    pub const DROP_ON_WAKE: u32 = 1 << 16;
 }
 
 #[derive(Clone, Copy, PartialEq, Eq, Debug, Hash)]
@@ -173,6 +174,8 @@ pub enum Op {
     StaleWake(u32),
     FeedUp,
     Unleash,
+    /// the next task-waker invocation outside a poll drops the collection from inside the notification
+    ArmDropOnWake,
     Move,
     DropSubject,
     CloneWaker(u32),
@@ -319,6 +322,9 @@ impl<'a> Run<'a> {
                 if cfg.ops & ops::DROP_SUBJECT != 0 {
                     m.push((Op::DropSubject, costly(ops::DROP_SUBJECT)));
                 }
+                if cfg.ops & ops::DROP_ON_WAKE != 0 && !w.drop_on_wake_armed && !w.drop_on_wake_fired {
+                    m.push((Op::ArmDropOnWake, costly(ops::DROP_ON_WAKE)));
+                }
                 if cfg.ops & ops::FEED_UP != 0 && w.up.blocked && !w.up.fed {
                     m.push((Op::FeedUp, costly(ops::FEED_UP)));
                 }
@@ -409,6 +415,18 @@ impl<'a> Run<'a> {
 
     // ---------------------------------------------------------------------------------------------
     pub(crate) fn apply(&mut self, op: &Op) {
+        // re-entrancy hook: while an environment operation runs, the task waker may drop the subject
+        SUBJ_PTR.with(|p| p.set(&mut self.subj as *mut Option<Box<dyn Subject>> as usize));
+        DROP_HOOK.with(|h| h.set(Some(drop_subject_from_waker)));
+        self.apply_inner(op);
+        DROP_HOOK.with(|h| h.set(None));
+        SUBJ_PTR.with(|p| p.set(0));
+        if w(|w| w.drop_on_wake_fired) && self.subj.is_none() {
+            w(|w| w.subject_alive = false);
+        }
+    }
+
+    fn apply_inner(&mut self, op: &Op) {
         self.ops_applied += 1;
         let r = self.render_op(op);
         w(|w| w.logf(|| format!("op {}", r)));
@@ -471,6 +489,7 @@ impl<'a> Run<'a> {
                 }
                 w(|w| w.env_wake_depth -= 1);
             }
+            Op::ArmDropOnWake => w(|w| w.drop_on_wake_armed = true),
             Op::Unleash => {
                 let ids: Vec<u32> = w(|w| {
                     w.dormant = false;
@@ -1434,6 +1453,23 @@ fn probe_vtable(kind: u8, item: *const (), header: *const ()) {
             }
         })
     })
+}
+
+thread_local! {
+    static SUBJ_PTR: std::cell::Cell<usize> = const { std::cell::Cell::new(0) };
+}
+/// called from the task waker (see world::tw_wake) while an environment wake is being applied and no
+/// poll of the subject is running: the driver does not touch `subj` during such an operation
+fn drop_subject_from_waker() {
+    let p = SUBJ_PTR.with(|p| p.get());
+    if p != 0 {
+        let slot = unsafe { &mut *(p as *mut Option<Box<dyn Subject>>) };
+        if let Some(s) = slot.take() {
+            w(|w| w.call_id += 1);
+            in_crate(|| drop(s));
+            w(|w| w.subject_alive = false);
+        }
+    }
 }
 
 thread_local! {
